@@ -91,12 +91,27 @@ func methodAt(cs []rec.Call, i int) string {
 
 var genUnitsCache = map[string][]gen.Unit{}
 
+// genUnits: the shared input space. Units named c02only/... (very long inputs) belong to C02 alone.
 func genUnits(tier string) []gen.Unit {
 	if u, ok := genUnitsCache[tier]; ok {
 		return u
 	}
-	u := gen.Units(tier)
+	var u []gen.Unit
+	for _, x := range gen.Units(tier) {
+		if !strings.HasPrefix(x.Name, "c02only/") {
+			u = append(u, x)
+		}
+	}
 	genUnitsCache[tier] = u
+	return u
+}
+
+func genUnitsC02(tier string) []gen.Unit {
+	if u, ok := genUnitsCache["c02:"+tier]; ok {
+		return u
+	}
+	u := gen.Units(tier)
+	genUnitsCache["c02:"+tier] = u
 	return u
 }
 
